@@ -86,9 +86,9 @@ def enum_actions(src, where):
 
 def extract():
     f = {}
-    gov = vlib.read(os.path.join(vlib.REPO, GOV))
-    tbg = vlib.read(os.path.join(vlib.REPO, TBG))
-    fac = vlib.read(os.path.join(vlib.REPO, FAC))
+    gov = vlib.read_contract(GOV)
+    tbg = vlib.read_contract(TBG)
+    fac = vlib.read_contract(FAC)
     gfn, tfn, ffn = fn_bodies(gov), fn_bodies(tbg), fn_bodies(fac)
 
     f["coreModule"] = int(need(r"const\s+CoreModule\s*=\s*0x([0-9a-fA-F]+)", gov, "const CoreModule in " + GOV).group(1), 16)
@@ -168,7 +168,7 @@ def extract():
     m = need(r"let\s+paths\s*=\s*byteVecSlice!\(\s*payload\s*,\s*(\d+)\s*,\s*payloadSize\s*\)", b, "paths slice in DestroyUnexecutedSequences")
     f["dsPathsFrom"] = int(m.group(1))
     need(r"\.destroyUnexecutedSequenceContracts\(\s*paths\s*\)", b, "paths handed to TokenBridgeForChain.destroyUnexecutedSequenceContracts")
-    tbc = vlib.read(os.path.join(vlib.REPO, TBC))
+    tbc = vlib.read_contract(TBC)
     b = fn_bodies(tbc).get("destroyUnexecutedSequenceContracts")
     if not b:
         raise Missing("fn destroyUnexecutedSequenceContracts in " + TBC)
